@@ -171,9 +171,13 @@ def send(jar, method, path, fields):
         headers["Cookie"] = jar.cookie
     c = http.client.HTTPConnection("127.0.0.1", PORT, timeout=200)
     try:
-        c.request(method, path, body=body, headers=headers)
-        r = c.getresponse()
-        data = r.read()
+        try:
+            c.request(method, path, body=body, headers=headers)
+            r = c.getresponse()
+            data = r.read()
+        except (OSError, http.client.HTTPException) as e:
+            # the server dropped the connection (a panicking handler does that)
+            return 0, ("#connection-failed " + type(e).__name__).encode(), "-"
         ev = "-"
         for k, v in r.getheaders():
             if k.lower() == "set-cookie" and v.startswith(COOKIE + "="):
@@ -542,6 +546,7 @@ class Run:
         self.pending = []          # tasks spawned and not yet reported done: (jar, n, task, actor, stub-log position)
         self.graphs_seen = set()
         self.used = {}             # jar -> account names it used (canonical), for the `alone` monitor
+        self.cred = []             # credential events for the `logins` monitor
         self.stats = {"requests": 0, "status": {}, "tasks": 0, "models": 0, "graphs": 0}
 
     def emit(self, line):
@@ -600,6 +605,17 @@ class Run:
             mine.add(dict(fields)["username"])
         if path == "/adf/add" and ev == "set" and ident_before is None and jar.ident:
             mine.add(self.names.ren(jar.ident))
+        fd = dict(fields or [])
+        if "raw" not in fd and fd.get("username") and fd.get("password"):
+            pw = fnv64(fd["password"])[:8]
+            if path == "/users/register" and status == 200:
+                self.cred.append("R:%s:%s" % (fd["username"], pw))
+            elif path == "/users/update" and status == 200:
+                self.cred.append("U:%s:%s:%s" % (self.names.ren(ident_before or "-"), fd["username"], pw))
+            elif path == "/users/login":
+                self.cred.append("L:%s:%s:%d" % (fd["username"], pw, status))
+        if path == "/users/delete" and status == 200:
+            self.cred.append("D:%s" % self.names.ren(ident_before or "-"))
         body = canon_body(status, data, self.detail, self.names.ren)
         payload = "%d %s %s" % (status, ev, body)
         self.emit("= " + payload)
@@ -704,6 +720,8 @@ class Run:
     def finish(self, k):
         self.dbcheck()
         self.emit("isolation " + (" ".join(self.iso) if self.iso else "-"))
+        self.emit("~ ok")
+        self.emit("logins " + (" ".join(self.cred) if self.cred else "-"))
         self.emit("~ ok")
 
     def dbcheck(self):
